@@ -415,6 +415,16 @@ def path_cases():
          b'require("util")\nrequire("util/vec")\nz=1\n', [], None, {b'util': 'util.lua', b'util/vec': 'util/vec.lua'}),
         ('dir-named-like-package-loadpath', {'lib/util.lua': b'u=1\n', 'lib/util/vec.lua': b'v=2\n', 'util/x.lua': b'w=3\n'},
          b'require("util")\nz=1\n', ['--lua-path', 'lib/?;lib/?.lua'], None, {b'util': 'lib/util.lua'}),
+        # --lua-path given while PICO8_LUA_PATH is set to something that does not find the package: the package named by
+        # the argument's path must still be found and embedded (nothing under the environment's path has its name)
+        ('lua-path-arg-with-env-elsewhere', {'arglib/mod.lua': b'a=1\n', 'envlib/other.lua': b'o=1\n'},
+         b'require("mod")\nz=1\n', ['--lua-path', 'arglib/?.lua'], 'envlib/?.lua', {b'mod': 'arglib/mod.lua'}),
+        ('lua-path-abs-arg-with-default-env', {'arglib/mod.lua': b'a=1\n'},
+         b'require("mod")\nz=1\n', ['--lua-path', '<D>/arglib/?.lua'], '?;?.lua', {b'mod': 'arglib/mod.lua'}),
+        ('lua-path-arg-with-env-nested', {'arglib/mod.lua': b'require("deep")\na=1\n', 'arglib/arglib/deep.lua': b'd=1\n',
+                                          'envlib/x.lua': b'o=1\n'},
+         b'require("mod")\nz=1\n', ['--lua-path', 'arglib/?.lua;?.lua'], '<D>/envlib/?.lua',
+         {b'mod': 'arglib/mod.lua', b'deep': 'arglib/arglib/deep.lua'}),
     ] + nested_loadpath_cases() + odd_name_cases() + call_context_cases() + decoy_cases()
 
 
